@@ -1,7 +1,6 @@
 package props
 
 import (
-	"strings"
 	"bytes"
 	"context"
 	"encoding/base64"
@@ -10,6 +9,7 @@ import (
 	"fmt"
 	"io"
 	"reflect"
+	"strings"
 
 	"cuelabs.dev/go/oci/ociregistry"
 
